@@ -153,6 +153,29 @@ def run(ctx):
         else:
             good += 1
     ctx.check(bad is None and good >= 2, 'R3', 'release_dependencies loop body', where(rel), bad or '%d iteration shape(s) recognised' % good, key='R3|release_dependencies|loop body')
+    # every successor is released: the emptiness test of successors_ is the head of a loop whose body pops
+    drains = False
+    for h in v.loop_heads():
+        at = v.cond_atom(h['id'])
+        if at and at[0][0] == 'truthy' and at[0][1][0] == 'call' and at[0][1][1].endswith('::empty') and at[0][1][2] == succs:
+            body = _cg_nl(v, h['id'])
+            drains = any(e.kind == 'call' and e.q.endswith('::pop_back') and e.obj == succs for b_ in body for eid in v.blocks[b_].get('e', []) for e in v.events_of(eid))
+    ctx.check(drains, 'R3', 'release_dependencies releases every successor (loop until successors_ is empty)', where(rel), '' if drains else 'successors_ is not drained by a loop: only some successors are released',
+              key='R3|release_dependencies|drains')
+    # start() records STARTING before it decides: the setters of R4 retry start() only for an activity in that state
+    stf = P.fn(ACT + '::start')
+    vs_ = A.view(stf)
+    okst = None
+    for p in vs_.paths():
+        if p.exit in ('noreturn', 'cut', 'throw'):
+            continue
+        evs = vs_.path_events(p)
+        si = [i for i, e in enumerate(evs) if e.kind == 'assign' and e.lhs[0] == 'field' and e.lhs[2].endswith('::state_') and 'STARTING' in repr(e.rhs)]
+        gi = [i for i, e in enumerate(evs) if (e.kind == 'call' and e.q.endswith('::do_start')) or (e.kind == 'call' and e.q.endswith('::fire_on_veto'))]
+        good_ = bool(si) and bool(gi) and si[0] < gi[0]
+        okst = good_ if okst is None else (okst and good_)
+    ctx.check(bool(okst), 'R1', 'Activity::start records state STARTING before it starts or vetoes', where(stf), 'a vetoed activity left in INITED is not retried when it gets assigned (R4 retries in state STARTING)' if not okst else '',
+              key='R1|start|records STARTING')
 
     # ---- R5 both sides together ---------------------------------------------------------------------------------------------------------------
     ctx.rule('R5', 'add_successor / remove_successor update successors_ and the successor\'s dependencies_ on the same path', 2)
@@ -309,3 +332,4 @@ def run(ctx):
 
 
 from ..lib import dominating_facts as _dominating_facts  # noqa: E402,F401
+from ..cg import natural_loop as _cg_nl  # noqa: E402
